@@ -11,7 +11,7 @@ Spec == Init /\ [][Next]_n
 
 \* when the transport itself withheld clientbound bytes (write stall) the client sees packets late by the transport's doing:
 \* the two clauses that bound WHEN something reaches the client are not judged on such runs
-Judged(r) == IF r.stalled THEN C07Names \ {"C07_KeepAliveEveryP", "C07_TransferWhenRoutingCompletes", "C07_EchoingClientRouted"} ELSE C07Names
+Judged(r) == IF r.stalled THEN C07Names \ {"C07_KeepAliveEveryP", "C07_TransferWhenRoutingCompletes", "C07_EchoingClientRouted", "C07_WindowNotCutShort"} ELSE C07Names
 Judge == n >= 1 => LET bad == {c \in Judged(Recs[n]) : ~C07Clause(c, Recs[n])} IN
                    bad = {} \/ PrintT(<<"FAIL", ToJson([line |-> n, clauses |-> bad])>>)
 AllConsumed == TLCGet("stats").diameter = Len(Recs) + 1 \/ PrintT(<<"NOTCONSUMED", ToJson([d |-> TLCGet("stats").diameter])>>)
